@@ -1,6 +1,7 @@
 import GV.Lib.Line
 import GV.Lib.Blake2b
 import GV.Model.Threshold
+import GV.Lib.IntervalPow
 /-
   ops (feed_impl: each line is `op \t impl-output`):
     thr <mode> <pool> <total> <fnum> <fden>        CertifiedNatThresholdWithMode; fden = 0 means a nil coefficient
@@ -11,9 +12,12 @@ import GV.Model.Threshold
     powers below `maxBits` bits (m up to a few hundred for ordinary f):
                the threshold is computed by `findT` and accepted only if the proved checker
                `certOK` passes (GV.Props.C37.certOK_sound) → exact model and exact spec.
-    otherwise: the implementation's value is validated against the certified thresholds of the
-               two Stern–Brocot neighbours lo ≤ σ ≤ hi with denominators ≤ 64 (monotonicity in σ,
-               GV.Props.C37.T_mono_sigma): inside → model echoes it, outside → failure.
+    otherwise: (1) proved: the implementation's value must lie between the certified thresholds of
+               the two Stern–Brocot neighbours lo ≤ σ ≤ hi with denominators ≤ 64
+               (GV.Props.C37.enclosure_sound); (2) glue, not proved: it must equal the value of the
+               outward-rounded interval evaluation `GV.Lib.IntervalPow.threshold`, an independent
+               implementation of the formula that is cross-checked against `certOK` on every
+               exactly certified input of the same run.
 -/
 namespace GV.Drv.C37
 open GV.Line GV.Model.Threshold
@@ -84,17 +88,31 @@ def threshold (i : Input) (impl : String) : Thr :=
   | .err k => { model := s!"err:{k}", spec := (demanded i).getD "*", cls }
   | .val t => { model := toString t, spec := (demanded i).getD "*", cls, value := some t }
   | .general a b n m U =>
+    -- independent evaluation of the formula (outward-rounded fixed point, escalating precision)
+    let iv := GV.Lib.IntervalPow.threshold a b n m U
     if exactFeasible b m U then
       match certified a b n m U with
-      | some t => { model := toString t, spec := toString t, value := some t }
+      | some t =>
+        -- the glue is cross-checked against the proved checker wherever both apply
+        if iv.1 ≤ t ∧ t ≤ iv.2 then { model := toString t, spec := toString t, value := some t }
+        else { model := s!"interval-glue-disagrees[{iv.1},{iv.2}] cert={t}", spec := toString t }
       | none => { model := "cert-search-failed", spec := "*" }
     else
-      match enclosure a b n m U, impl.toNat? with
-      | some (lo, hi), some t =>
-        if lo ≤ t ∧ t ≤ hi then { model := impl, spec := "*" }
-        else { model := s!"outside-enclosure[{lo},{hi}]", spec := "!outside-certified-enclosure" }
-      | some (lo, hi), none => { model := s!"enclosure[{lo},{hi}]", spec := "!no-threshold-returned" }
-      | none, _ => { model := impl, spec := "*" }   -- too expensive to certify: not checked
+      -- too expensive to certify exactly: proved enclosure (Stern–Brocot neighbours) + interval evaluation
+      let enc := enclosure a b n m U
+      let insideEnc (t : Nat) : Bool := match enc with
+        | some (lo, hi) => decide (lo ≤ t ∧ t ≤ hi)
+        | none => true
+      match impl.toNat? with
+      | none => { model := s!"interval[{iv.1},{iv.2}]", spec := "!no-threshold-returned" }
+      | some t =>
+        if !insideEnc t then
+          { model := s!"outside-enclosure", spec := "!outside-certified-enclosure" }
+        else if iv.1 = iv.2 then
+          if insideEnc iv.1 then { model := toString iv.1, spec := toString iv.1, value := some iv.1 }
+          else { model := "interval-glue-outside-certified-enclosure", spec := "*" }
+        else if iv.1 ≤ t ∧ t ≤ iv.2 then { model := impl, spec := "*" }
+        else { model := s!"outside-interval[{iv.1},{iv.2}]", spec := "!outside-interval-enclosure" }
 
 def leaderValue (vrf : List UInt8) : List UInt8 := GV.Lib.Blake2b.hash256 (0x4c :: vrf)
 
@@ -142,13 +160,11 @@ def handleOp (op impl : String) : GV.Line.Out :=
               { model := r, spec := r }
             | none => { model := "cert-search-failed" }
           else
-            match enclosure a b n m U with
-            | some (lo, hi) =>
-              let v := beNat (if i.mode = 1 then vrf else leaderValue vrf)
-              if v < lo then { model := "1", spec := "1" }
-              else if hi ≤ v then { model := "0", spec := "0" }
-              else { model := impl }   -- inside the enclosure gap: not decided here
-            | none => { model := impl }
+            let iv := GV.Lib.IntervalPow.threshold a b n m U
+            let v := beNat (if i.mode = 1 then vrf else leaderValue vrf)
+            if v < iv.1 then { model := "1", spec := "1" }
+            else if iv.2 ≤ v then { model := "0", spec := "0" }
+            else { model := impl }   -- inside an unresolved enclosure: not decided here
     | _, _ => badOp
   | _ => badOp
 
